@@ -146,7 +146,34 @@ func caseHash(ops []string) string {
 }
 
 // safeExec runs exec and converts a panic into a result line
+// caseTimeout: when positive, a case that does not finish within it is reported as a hang (the goroutine stacks are the
+// replay) and the suite stops there; set for the suites whose interpreter has no watchdog of its own around the calls
+var caseTimeout time.Duration
+
 func safeExec(exec func([]string) ([]string, []string), ops []string) (dops, res []string, crashed string) {
+	if caseTimeout > 0 {
+		type out struct {
+			dops, res []string
+			crashed   string
+		}
+		ch := make(chan out, 1)
+		go func() {
+			var o out
+			defer func() {
+				if p := recover(); p != nil {
+					o.crashed = fmt.Sprintf("%v\n%s", p, debug.Stack())
+				}
+				ch <- o
+			}()
+			o.dops, o.res = exec(ops)
+		}()
+		select {
+		case o := <-ch:
+			return o.dops, o.res, o.crashed
+		case <-time.After(caseTimeout):
+			return nil, nil, fmt.Sprintf("HANG: the case did not finish within %v\n%s", caseTimeout, allStacks())
+		}
+	}
 	defer func() {
 		if p := recover(); p != nil {
 			crashed = fmt.Sprintf("%v\n%s", p, debug.Stack())
